@@ -49,6 +49,10 @@ var shellPasswordHash = func() string {
 }()
 
 var shellProgs = []string{"simcat", "simgen", "simsink"}
+
+// whitelisted everywhere, registered nowhere: starting it fails like a command that is not installed
+const shellMissingProg = "simmissing"
+
 var shellExitCodes = []int{0, 1, 3, 255}
 
 // write / output totals, biased to the frame-size boundary
@@ -77,6 +81,16 @@ func drawShellTunnel(m *Mesh, prop string) *Tunnel {
 	t := &Tunnel{Kind: "shell", Ingress: 0, Exit: m.TunnelExit}
 	t.Prog = shellProgs[simrt.Choose(len(shellProgs), "shprog")]
 	t.ClientClose, t.ServerClose = "close-after-read", "after-eof"
+	if prop == "C17" && simrt.Chance(1, 5, "shmissing") {
+		// a command that passes every admission check (enabled, password,
+		// whitelist, arguments, free session slot) and then cannot be started:
+		// it is not installed on that agent. The session fails; nothing of it
+		// may remain.
+		t.Prog = shellMissingProg
+		t.faulted = true // the session cannot succeed; completeness is not demanded of it
+		simrt.Probe("shell_command_not_installed")
+		return t
+	}
 	switch t.Prog {
 	case "simcat":
 		t.Up = drawShellTotal(prop)
@@ -112,11 +126,11 @@ func (ts *TunnelSet) addShell(t *Tunnel) {
 		ex.Cfg.Shell.Enabled = true
 		switch simrt.Choose(3, "shwhitelist") {
 		case 0:
-			ex.Cfg.Shell.Whitelist = append([]string(nil), shellProgs...)
+			ex.Cfg.Shell.Whitelist = append([]string{shellMissingProg}, shellProgs...)
 		case 1:
 			ex.Cfg.Shell.Whitelist = []string{"*"}
 		default:
-			ex.Cfg.Shell.Whitelist = []string{"whoami", "simsink", "simgen", "ls", "simcat"}
+			ex.Cfg.Shell.Whitelist = []string{"whoami", "simsink", "simgen", "ls", "simcat", shellMissingProg}
 		}
 		if simrt.Chance(1, 3, "shpassword") {
 			ex.Cfg.Shell.PasswordHash = shellPasswordHash
@@ -577,6 +591,12 @@ func (ts *TunnelSet) deliveryWrong(t *Tunnel, where string, off int, got []byte)
 // to stdout and to stderr reached the client, and the exit status arrived.
 func (ts *TunnelSet) checkShellDone(t *Tunnel) {
 	if t.faulted || t.Abandon {
+		return
+	}
+	if t.Prog == shellMissingProg {
+		if t.shRemoteErr != "" || !t.shAcked {
+			simrt.Probe("shell_start_failure_reported")
+		}
 		return
 	}
 	state := fmt.Sprintf("prog=%s stdin %d of %d, stdout %d of %d, stderr %d of %d, acknowledged=%v, exit status seen=%v, remote error %q, client error %v", t.Prog, t.serverGot, t.Up, t.clientGot, t.Down, t.shErrGot, t.ErrBytes, t.shAcked, t.shExitSeen, t.shRemoteErr, t.clientErr)
